@@ -86,30 +86,32 @@ type term struct {
 // configuration of one enumeration
 
 type gcfg struct {
-	Names      []string // binder pool
-	MaxW       int      // node-count bound of a whole program
-	Let2       bool     // two-binding let / let*
-	Dotimes    bool
-	Macrolet   bool
-	GSet       bool   // (set 'g v) assignments inside expressions
-	FunArg     bool   // (function n) and #^ prefix lambdas
-	Styles     int    // defun parameter styles: 1 = plain, 4 = plain,&key,&optional,&rest
-	Packages   bool   // in-package / export / use-package / pkg:name
-	Files      bool   // file break item
-	Macros     bool   // defmacro items
-	NestedSet  bool   // top-level (set 'n v) forms nested in a non-function top-level form (if / progn / let / cond / dotimes / handler-bind)
-	LangName   bool   // Names[0] is a name the language itself binds (builtin, special operator, stock macro, stdlib export)
-	Wrap       string // function that tags function bodies (default list)
-	Prelude    string // text put in front of the first file (costs no weight)
-	Stdlib     bool   // sessions run in a runtime with the standard library loaded
-	QTemplates bool   // defmacro templates that mention pkg:name
-	Redefine   bool   // the same (package, name) may be defined twice at top level
-	MaxItems   int    // max top-level items before the final expression
-	Data       bool   // keyword and quoted-symbol data leaves
-	FixParam   bool   // defun parameters always use the last pool name
-	DefNames   int    // number of pool names usable for top-level definitions (0 = all)
-	HoleMaxW   int    // max weight of a hole inside an item (0 = unbounded)
-	FinalMaxW  int    // max weight of the final expression (0 = unbounded)
+	Names       []string // binder pool
+	MaxW        int      // node-count bound of a whole program
+	Let2        bool     // two-binding let / let*
+	Dotimes     bool
+	Macrolet    bool
+	GSet        bool   // (set 'g v) assignments inside expressions
+	FunArg      bool   // (function n) and #^ prefix lambdas
+	Styles      int    // defun parameter styles: 1 = plain, 4 = plain,&key,&optional,&rest
+	Packages    bool   // in-package / export / use-package / pkg:name
+	Files       bool   // file break item
+	Macros      bool   // defmacro items
+	ExportForms bool   // export items also in list form (export '(n m)) and string form (export "n")
+	MaxBreaks   int    // file breaks per session when Files is set (0 = 1)
+	NestedSet   bool   // top-level (set 'n v) forms nested in a non-function top-level form (if / progn / let / cond / dotimes / handler-bind)
+	LangName    bool   // Names[0] is a name the language itself binds (builtin, special operator, stock macro, stdlib export)
+	Wrap        string // function that tags function bodies (default list)
+	Prelude     string // text put in front of the first file (costs no weight)
+	Stdlib      bool   // sessions run in a runtime with the standard library loaded
+	QTemplates  bool   // defmacro templates that mention pkg:name
+	Redefine    bool   // the same (package, name) may be defined twice at top level
+	MaxItems    int    // max top-level items before the final expression
+	Data        bool   // keyword and quoted-symbol data leaves
+	FixParam    bool   // defun parameters always use the last pool name
+	DefNames    int    // number of pool names usable for top-level definitions (0 = all)
+	HoleMaxW    int    // max weight of a hole inside an item (0 = unbounded)
+	FinalMaxW   int    // max weight of the final expression (0 = unbounded)
 }
 
 // per-skeleton context: what the holes may refer to
@@ -683,6 +685,20 @@ func (g *gen) skeletons(f func(items []item)) {
 				ns.exported = clone(s.exported)
 				ns.exported[key] = true
 				push(item{k: itExport, n: n}, 1, ns)
+				if g.cfg.ExportForms {
+					// (export "n") and (export '(n m)): the builtin accepts strings and lists of names
+					push(item{k: itExport, n: n, style: 2}, 1, ns)
+					for m := int8(0); m < int8(dn); m++ {
+						k2 := [2]int8{s.pkg, m}
+						if m == n || s.exported[k2] {
+							continue
+						}
+						ns2 := ns
+						ns2.exported = clone(ns.exported)
+						ns2.exported[k2] = true
+						push(item{k: itExport, n: n, p: m, style: 1}, 1, ns2)
+					}
+				}
 			}
 			// package toggle: weight 1
 			{
@@ -696,9 +712,13 @@ func (g *gen) skeletons(f func(items []item)) {
 				push(item{k: itUse}, 1, ns)
 			}
 		}
-		if g.cfg.Files && s.files == 0 && len(items) > 0 {
+		maxBreaks := 1
+		if g.cfg.MaxBreaks > 0 {
+			maxBreaks = g.cfg.MaxBreaks
+		}
+		if g.cfg.Files && s.files < maxBreaks && len(items) > 0 {
 			ns := s
-			ns.files = 1
+			ns.files = s.files + 1
 			ns.pkg = 0
 			ns.used = false
 			push(item{k: itBreak}, 1, ns)
@@ -710,6 +730,11 @@ func (g *gen) skeletons(f func(items []item)) {
 // useful reports whether the skeleton is worth filling: structural
 // restrictions that remove programs which cannot exercise anything new
 // (stated in the evidence as part of the grammar).
+// exportsName reports whether an export item names pool name n.
+func (it item) exportsName(n int8) bool {
+	return it.n == n || (it.style == 1 && it.p == n)
+}
+
 func skeletonOK(items []item, langName bool) bool {
 	// A global function named like something the language binds must be
 	// defined before anything is evaluated: a reference that runs earlier would
@@ -761,7 +786,7 @@ func skeletonOK(items []item, langName bool) bool {
 				continue
 			}
 			for _, d := range items {
-				if (d.k == itDefun || d.k == itSet) && d.pkg == 0 && d.n == e.n {
+				if (d.k == itDefun || d.k == itSet) && d.pkg == 0 && e.exportsName(d.n) {
 					return false
 				}
 			}
@@ -787,14 +812,20 @@ func skeletonOK(items []item, langName bool) bool {
 		if it.k != itExport {
 			continue
 		}
-		ok := false
-		for _, d := range items {
-			if (d.k == itDefun || d.k == itSet) && d.pkg == it.pkg && d.n == it.n {
-				ok = true
-			}
+		names := []int8{it.n}
+		if it.style == 1 {
+			names = append(names, it.p)
 		}
-		if !ok {
-			return false
+		for _, n := range names {
+			ok := false
+			for _, d := range items {
+				if (d.k == itDefun || d.k == itSet) && d.pkg == it.pkg && d.n == n {
+					ok = true
+				}
+			}
+			if !ok {
+				return false
+			}
 		}
 	}
 	// a macro whose template mentions a free name needs that name defined globally
@@ -1020,7 +1051,7 @@ func termHasKey(t *term) bool {
 	return false
 }
 
-var allTags = []string{"&key", "&optional", "&rest", "callkey", "defmacro", "defmacro-free", "defmacro-free-eq-param", "defmacro-qfree", "dotimes", "export", "export-in-other-file",
+var allTags = []string{"&key", "&optional", "&rest", "callkey", "defmacro", "defmacro-free", "defmacro-free-eq-param", "defmacro-qfree", "dotimes", "export", "export-in-other-file", "export-list", "export-string",
 	"files", "funarg", "gset", "let-dup", "let-value-closure", "macrolet", "macrolet-free", "nested-set", "pkg", "prefix", "qref", "qref-in-brackets", "redefine", "use", "use-with-local-export"}
 
 func termTags(t *term, tags map[string]bool, inBrackets bool) {
@@ -1257,7 +1288,15 @@ func (g *gen) render(items []item) program {
 			defined[[2]int8{it.pkg, it.n}] = true
 			setDefined[[2]int8{it.pkg, it.n}] = true
 		case itExport:
-			r.b.WriteString("(export '" + r.name(it.n) + ")")
+			switch it.style {
+			case 1:
+				r.b.WriteString("(export '(" + r.name(it.n) + " " + r.name(it.p) + "))")
+				exported[[2]int8{it.pkg, it.p}] = true
+			case 2:
+				r.b.WriteString("(export \"" + r.name(it.n) + "\")")
+			default:
+				r.b.WriteString("(export '" + r.name(it.n) + ")")
+			}
 			exported[[2]int8{it.pkg, it.n}] = true
 			p.HasExp = true
 		case itPkg:
@@ -1309,7 +1348,14 @@ func (g *gen) render(items []item) program {
 				tags["defmacro"] = true
 			}
 		case itExport:
-			tags["export"] = true
+			switch it.style {
+			case 1:
+				tags["export-list"] = true
+			case 2:
+				tags["export-string"] = true
+			default:
+				tags["export"] = true
+			}
 		case itPkg:
 			tags["pkg"] = true
 		case itUse:
@@ -1390,6 +1436,18 @@ func (g *gen) enumerate(visit func(p program)) (skeletons int64) {
 	g.skeletons(func(items []item) {
 		if !skeletonOK(items, g.cfg.LangName) {
 			return
+		}
+		if g.cfg.ExportForms {
+			// this family is about the list and string spellings: plain sessions are enumerated elsewhere
+			styled := false
+			for _, it := range items {
+				if it.k == itExport && it.style > 0 {
+					styled = true
+				}
+			}
+			if !styled {
+				return
+			}
 		}
 		skeletons++
 		ctx := g.ctxID(contextOf(items))
